@@ -666,6 +666,69 @@ Section Spec.
     - eauto.
     - tauto.
   Qed.
+
+  (* the code that runs: every piece of code (top-level code of each file, init) of an imported package runs
+     before any piece of code of its importer, and each package's code runs exactly once *)
+  Lemma in_run_events : forall nf l x, In x (run_events nf l) -> In x l.
+  Proof.
+    intros nf l x H. unfold run_events in H. apply in_flat_map in H. destruct H as (p & Hp & Hx).
+    apply repeat_spec in Hx. subst; auto.
+  Qed.
+
+  Lemma run_events_app : forall nf a b, run_events nf (a ++ b) = (run_events nf a ++ run_events nf b)%list.
+  Proof. intros; unfold run_events; apply flat_map_app. Qed.
+
+  Lemma app_split_notin : forall (A B pre : list string) p post,
+    (A ++ B = pre ++ p :: post)%list -> ~ In p A -> exists pre', pre = (A ++ pre')%list /\ B = (pre' ++ p :: post)%list.
+  Proof.
+    induction A as [|a A IH]; intros B pre p post H Hn.
+    - exists pre; auto.
+    - destruct pre as [|x pre].
+      + simpl in H. inversion H; subst. exfalso; apply Hn; left; auto.
+      + simpl in H. inversion H; subst. destruct (IH B pre p post H2) as (pre' & E1 & E2).
+        * intros Hin; apply Hn; right; auto.
+        * exists pre'; subst; auto.
+  Qed.
+
+  Theorem c15_events : forall top l nf, valid_order top l -> forall p q, In p l -> edge p q ->
+    forall pre post, run_events nf l = (pre ++ p :: post)%list -> ~ In q post.
+  Proof.
+    intros top l nf (Hnd & Hiff & Hdep) p q Hp He pre post Hev Hq.
+    apply in_split in Hp. destruct Hp as (l1 & l2 & Heq).
+    pose proof (Hdep l1 p l2 Heq q He) as Hq1.
+    subst l. pose proof (NoDup_remove_2 _ _ _ Hnd) as Hpn.
+    assert (Hqn : ~ In q (p :: l2)).
+    { intros Hin.
+      (* q in l1 and in p :: l2 contradicts NoDup (l1 ++ p :: l2) *)
+      clear - Hnd Hq1 Hin. induction l1 as [|a l1 IH]; [inversion Hq1|].
+      simpl in Hnd. inversion Hnd as [|? ? Hna Hnd']; subst. destruct Hq1 as [->|Hq1].
+      - apply Hna. apply in_or_app; right; auto.
+      - apply IH; auto. }
+    rewrite run_events_app in Hev.
+    destruct (app_split_notin _ _ _ _ _ Hev) as (pre' & _ & HB).
+    { intros Hin. apply in_run_events in Hin. apply Hpn. apply in_or_app; left; auto. }
+    apply Hqn. apply (in_run_events nf). rewrite HB. apply in_or_app; right; right; auto.
+  Qed.
+
+  Lemma count_occ_repeat_other : forall (x y : string) n, x <> y -> count_occ string_dec (repeat y n) x = 0.
+  Proof. intros x y n Hne; induction n as [|n IH]; simpl; auto. destruct (string_dec y x); [congruence|auto]. Qed.
+  Lemma count_occ_repeat_same : forall (x : string) n, count_occ string_dec (repeat x n) x = n.
+  Proof. intros x n; induction n as [|n IH]; simpl; auto. destruct (string_dec x x); [auto|congruence]. Qed.
+
+  Theorem c15_events_once : forall top l nf, valid_order top l -> forall p, In p l ->
+    count_occ string_dec (run_events nf l) p = S (nf p).
+  Proof.
+    intros top l nf (Hnd & _ & _) p Hp. clear top.
+    induction l as [|a l IH]; [inversion Hp|].
+    change (run_events nf (a :: l)) with (repeat a (S (nf a)) ++ run_events nf l)%list.
+    rewrite count_occ_app. inversion Hnd as [|? ? Hna Hnd']; subst.
+    destruct Hp as [->|Hp].
+    - rewrite count_occ_repeat_same.
+      assert (H0 : count_occ string_dec (run_events nf l) p = 0).
+      { apply count_occ_not_In. intros Hin. apply Hna. eapply in_run_events; eauto. }
+      rewrite H0. lia.
+    - rewrite count_occ_repeat_other; [apply IH; auto|]. intros ->; auto.
+  Qed.
 End Spec.
 
 Print Assumptions c15_no_fuel.
